@@ -250,16 +250,33 @@ func (k *c19) raceCase(c *core.Ctx, i int) {
 	core.WriteFiles(dir, w.files)
 	writeFile(dir, "target.knut", c19Target(r, w.j))
 	for _, cmd := range c19Commands(w) {
+		if c.OverBudget() {
+			c.NotJudged(1)
+			return
+		}
 		for rep := 0; rep < 2; rep++ {
 			env := c19Env(r)
 			logPrefix := filepath.Join(dir, fmt.Sprintf("race-%s-%d", cmd.key, rep))
 			env = append(env, "GORACE=halt_on_error=0 exitcode=0 log_path="+logPrefix)
-			res := core.Exec(core.Cmd{Argv: append([]string{c.KnutRace}, cmd.args...), Dir: dir, Env: env, Timeout: 120 * time.Second, Fsize: -1})
+			ex := core.Cmd{Argv: append([]string{c.KnutRace}, cmd.args...), Dir: dir, Env: env, Timeout: 60 * time.Second, Fsize: -1}
+			res := execCounted(c, ex)
 			c.Eval(1)
 			c.Count("race_runs", 1)
 			if res.Class == "timeout" {
-				c.Inconclusive(i, "race run timed out: "+cmd.key)
-				continue
+				hangs := 1
+				for n := 0; n < 2; n++ {
+					if execCounted(c, ex).Class == "timeout" {
+						hangs++
+					}
+				}
+				if hangs < 3 {
+					c.Inconclusive(i, "race run timed out: "+cmd.key)
+					continue
+				}
+				c.Count("confirmed_hangs", 1)
+				c.Violation(core.Witness{Case: i, Key: "hang:" + cmd.key, Why: fmt.Sprintf("`knut %s` (%s, -race build) does not terminate on an accepted multi-file journal (3 of 3 attempts exceeded 60 s)", strings.Join(cmd.args, " "), strings.Join(env[:len(env)-1], " ")),
+					Files: w.files, Cmd: knutCmd(c, env[:len(env)-1], cmd.args...), Extra: map[string]string{"stderr.txt": core.Trunc(string(res.Stderr), 60000)}})
+				return
 			}
 			blocks, log := readRaceLogs(logPrefix)
 			if blocks > 0 {
@@ -371,6 +388,11 @@ func (k *c19) faultCase(c *core.Ctx, i int) {
 	// a handful of commands per case
 	r.Shuffle(len(cmds), func(a, b int) { cmds[a], cmds[b] = cmds[b], cmds[a] })
 	for _, cmd := range cmds[:5] {
+		if c.OverBudget() {
+			c.NotJudged(1)
+			return
+		}
+
 		// which faults can this command see?
 		var visible []c19Fault
 		for _, f := range faults {
@@ -396,7 +418,7 @@ func (k *c19) faultCase(c *core.Ctx, i int) {
 			env = append(env, "GORACE=halt_on_error=0 exitcode=0 log_path="+logPrefix)
 		}
 		ex := core.Cmd{Argv: append([]string{bin}, cmd.args...), Dir: dir, Env: env, Timeout: 30 * time.Second, Fsize: -1}
-		res := core.Exec(ex)
+		res := execCounted(c, ex)
 		c.Eval(1)
 		fail := func(key, why string) {
 			c.Violation(core.Witness{Case: i, Key: key + ":" + cmd.key + ":" + visible[0].kind, Why: fmt.Sprintf("planted %v; `knut %s` (%s): %s", faults, strings.Join(cmd.args, " "), strings.Join(env, " "), why),
@@ -576,11 +598,15 @@ func (k *c19) traceCase(c *core.Ctx, i int) {
 		{"transcode", "-v", w.v, "main.knut"},
 	}
 	for ci, args := range cmds {
+		if c.OverBudget() {
+			c.NotJudged(1)
+			return
+		}
 		env := c19Env(r)
 		trace := filepath.Join(dir, fmt.Sprintf("trace%d.jsonl", ci))
 		env = append(env, "KNUT_VERIF_TRACE="+trace)
 		ex := core.Cmd{Argv: append([]string{c.Knut}, args...), Dir: dir, Env: env, Timeout: 40 * time.Second, Fsize: -1}
-		res := core.Exec(ex)
+		res := execCounted(c, ex)
 		c.Eval(1)
 		fail := func(key, why string, extra map[string]string) {
 			c.Violation(core.Witness{Case: i, Key: key, Why: fmt.Sprintf("`knut %s` (%s): %s", strings.Join(args, " "), strings.Join(env, " "), why), Files: w.files, Cmd: knutCmd(c, env, args...), Extra: extra})
